@@ -8,7 +8,7 @@
    State of the files: they describe the tree WITH fixes/C13-version-not-offered.diff applied (env_fixed:
    UConn.clientHandshake refuses a version that hello.supportedVersions does not list); the pre-fix
    behaviour (env_unfixed) is refuted below with the Firefox_102 witness. *)
-From UV Require Import Base.Common Model.Negotiate Proofs.NegotiateP.
+From UV Require Import Base.Common Model.Negotiate Model.NegotiateSess Proofs.NegotiateP Proofs.NegotiateSessP.
 
 (* whatever the server sends (legacy_version only, supported_versions, HRR first, ...), a completed handshake
    is at a version the wire hello advertised *)
@@ -71,6 +71,43 @@ Theorem C13_canary_before_fix_holds_if : forall e v w fl st,
 Proof. exact canary_holds_if. Qed.
 Print Assumptions C13_canary_before_fix_holds_if.
 
+(* ---- histories: the ClientHello offers a TLS <= 1.2 session cached by an earlier connection ----
+   client_run_sess (Model/NegotiateSess.v) adds the resumption branch of processServerHello; the version pick, the
+   offered-version check and the sentinel test precede it and do not look at the session. *)
+Theorem C13_session_conservative : forall e v ems fl, client_run_sess e v None ems fl = client_run_gen e v fl.
+Proof. exact sess_none. Qed.
+Print Assumptions C13_session_conservative.
+
+Theorem C13_version_advertised_with_session : forall v specmin w sess ems fl st,
+  versions_synced v specmin w = true ->
+  client_run_sess env_fixed v sess ems fl = Complete st -> In (cs_vers st) (advertised specmin w).
+Proof. exact version_sess_fixed. Qed.
+Print Assumptions C13_version_advertised_with_session.
+
+(* whatever session is offered and whether or not the server resumes it *)
+Theorem C13_canary_with_session : forall v specmin w sess ems fl st,
+  versions_synced v specmin w = true -> offers13 w = true ->
+  h_tail (first_hello fl) = 1 \/ h_tail (first_hello fl) = 2 ->
+  client_run_sess env_fixed v sess ems fl = Complete st -> cs_vers st = V13.
+Proof. exact canary_sess_fixed. Qed.
+Print Assumptions C13_canary_with_session.
+
+(* in particular when the cached session has the very version the server answers with *)
+Theorem C13_canary_session_same_version : forall v specmin w s ems fl,
+  versions_synced v specmin w = true -> offers13 w = true ->
+  h_tail (first_hello fl) = 1 \/ h_tail (first_hello fl) = 2 ->
+  h_sv (first_hello fl) = 0 -> h_vers (first_hello fl) = s_vers s -> s_vers s <> V13 ->
+  exists a, client_run_sess env_fixed v (Some s) ems fl = Abort a.
+Proof. exact canary_sess_same_version. Qed.
+Print Assumptions C13_canary_session_same_version.
+
+(* a resumed session is resumed at its own version and suite *)
+Theorem C13_resumed_at_session_version : forall e v vers h fl s ems st,
+  resumes v (Some s) h = true -> run12_sess e v vers h fl (Some s) ems = Complete st ->
+  s_vers s = vers /\ s_suite s = cs_suite st /\ In (cs_suite st) (cv_suites v) /\ s_ems s = ems.
+Proof. exact run12_sess_resumed. Qed.
+Print Assumptions C13_resumed_at_session_version.
+
 (* ---- hypotheses are satisfiable ---- *)
 Example C13_ex_firefox102_after_fix :
   versions_synced f13_view 769 f13_wire = true /\
@@ -98,4 +135,26 @@ Example C13_ex_no_extension :
   versions_synced v 769 w = true /\ advertised 769 w = [771; 770; 769] /\
   client_run v (mkFlight None (mkHello 770 0 0 [] 49199 0 0 0 false None []) [] None (Some 29) true)
   = Complete (mkState 770 49199 29 [] false false).
+Proof. vm_compute. repeat split; reflexivity. Qed.
+
+Example C13_ex_resumption :
+  let s := mkSess 771 49171 true in
+  (* the server resumes (echoes the session id), no sentinel: completes, resumed *)
+  client_run_sess env_fixed f13_view (Some s) true
+    (mkFlight None (mkHello 771 0 0 [1; 2; 3] 49171 0 0 0 false None []) [] None None true)
+  = Complete (mkState 771 49171 0 [] false false) /\
+  did_resume env_fixed f13_view (Some s)
+    (mkFlight None (mkHello 771 0 0 [1; 2; 3] 49171 0 0 0 false None []) [] None None true) = true /\
+  (* same flight with DOWNGRD\x01: refused although the offered session is a TLS 1.2 one *)
+  client_run_sess env_fixed f13_view (Some s) true
+    (mkFlight None (mkHello 771 0 1 [1; 2; 3] 49171 0 0 0 false None []) [] None None true)
+  = Abort a_illegal_parameter /\
+  (* full handshake (other session id) with the sentinel: refused as well *)
+  client_run_sess env_fixed f13_view (Some s) true
+    (mkFlight None (mkHello 771 0 1 [9] 49171 0 0 0 false None []) [] None (Some 29) true)
+  = Abort a_illegal_parameter /\
+  (* resumption with another suite than the session's: refused *)
+  client_run_sess env_fixed f13_view (Some s) true
+    (mkFlight None (mkHello 771 0 0 [1; 2; 3] 47 0 0 0 false None []) [] None None true)
+  = Abort a_handshake_failure.
 Proof. vm_compute. repeat split; reflexivity. Qed.
